@@ -238,7 +238,8 @@ pub fn synth(venue: Venue, futures: bool, market: &str, channel: &str, rng: &mut
         Venue::Bitmex => {
             let us = ms(rng) * 1000;
             let ts = iso(us, SecondsFormat::Millis);
-            let n = rng.range_u(1, 3);
+            // mostly 1-3 items per message; sometimes a burst (a busy market after a reconnect: messages of several KiB)
+            let n = if rng.chance(1, 8) { rng.range_u(20, 40) } else { rng.range_u(1, 3) };
             let mut items = Vec::new();
             let mut evs = Vec::new();
             for _ in 0..n {
@@ -255,7 +256,8 @@ pub fn synth(venue: Venue, futures: bool, market: &str, channel: &str, rng: &mut
         }
         Venue::Bybit => {
             let t = ms(rng);
-            let n = rng.range_u(1, 3);
+            // mostly 1-3 items per message; sometimes a burst (a busy market after a reconnect: messages of several KiB)
+            let n = if rng.chance(1, 8) { rng.range_u(20, 40) } else { rng.range_u(1, 3) };
             let mut items = Vec::new();
             let mut evs = Vec::new();
             for _ in 0..n {
@@ -303,7 +305,8 @@ pub fn synth(venue: Venue, futures: bool, market: &str, channel: &str, rng: &mut
         }
         Venue::GateioDeriv => {
             let t = ms(rng);
-            let n = rng.range_u(1, 3);
+            // mostly 1-3 items per message; sometimes a burst (a busy market after a reconnect: messages of several KiB)
+            let n = if rng.chance(1, 8) { rng.range_u(20, 40) } else { rng.range_u(1, 3) };
             let mut items = Vec::new();
             let mut evs = Vec::new();
             for _ in 0..n {
@@ -323,7 +326,8 @@ pub fn synth(venue: Venue, futures: bool, market: &str, channel: &str, rng: &mut
         Venue::KrakenTrade => {
             let us = ms(rng) * 1000 + rng.range(0, 999);
             let ts = format!("{}.{:06}", us / 1_000_000, us % 1_000_000);
-            let n = rng.range_u(1, 3);
+            // mostly 1-3 items per message; sometimes a burst (a busy market after a reconnect: messages of several KiB)
+            let n = if rng.chance(1, 8) { rng.range_u(20, 40) } else { rng.range_u(1, 3) };
             let mut items = Vec::new();
             let mut evs = Vec::new();
             for _ in 0..n {
@@ -344,7 +348,8 @@ pub fn synth(venue: Venue, futures: bool, market: &str, channel: &str, rng: &mut
         }
         Venue::Okx => {
             let t = ms(rng);
-            let n = rng.range_u(1, 3);
+            // mostly 1-3 items per message; sometimes a burst (a busy market after a reconnect: messages of several KiB)
+            let n = if rng.chance(1, 8) { rng.range_u(20, 40) } else { rng.range_u(1, 3) };
             let mut items = Vec::new();
             let mut evs = Vec::new();
             for _ in 0..n {
